@@ -4,6 +4,7 @@ verus! {
 pub trait KeyView { type KV; spec fn kview(&self) -> Self::KV; }
 impl KeyView for String { type KV = Seq<char>; open spec fn kview(&self) -> Seq<char> { self@ } }
 impl KeyView for str { type KV = Seq<char>; open spec fn kview(&self) -> Seq<char> { self@ } }
+impl<'a> KeyView for &'a str { type KV = Seq<char>; open spec fn kview(&self) -> Seq<char> { (*self)@ } }
 impl KeyView for usize { type KV = usize; open spec fn kview(&self) -> usize { *self } }
 impl KeyView for u16 { type KV = u16; open spec fn kview(&self) -> u16 { *self } }
 impl KeyView for (NaiveDate, String) { type KV = (int, Seq<char>); open spec fn kview(&self) -> (int, Seq<char>) { (self.0.d(), self.1@) } }
